@@ -13,6 +13,7 @@ PROPS["C06"] = dict(
                       "served.unaligned", "served.short", "served.403", "served.stale403", "served.400", "served.500",
                       "served.redir.ok", "served.redir.fail",
                       "conc.cases", "conc.reads_ok", "conc.overlapping_requests", "conc.cache_misses_injected",
+                      "shared.joined", "shared.evicted_before_copy", "shared.follower.read", "shared.follower.cache", "shared.follower_error",
                       "cache.fanout", "cache.fanout.interleaved", "read.parked_in_cache_hit", "fetcher.handler", "fetcher.http",
                       "served.handler.default", "served.handler.trunc", "opt.direct", "opt.pass", "opt.both"]),
     ],
